@@ -29,6 +29,9 @@ Fixpoint dedup (l : list idx) : list idx :=
 (* np.unique(subs, axis=0): the distinct rows in ascending lexicographic order *)
 Definition unique_rows (l : list idx) : list idx := sort_idx (dedup l).
 
+(* the distinct rows in order of FIRST appearance (np.unique(.., return_index=True) + np.sort of the indices) *)
+Definition dedup_first (l : list idx) : list idx := rev (dedup (rev l)).
+
 Section Gen.
 Context {V : Type} (v0 v1 : V) (vadd vmul : V -> V -> V) (isz : V -> bool).
 
@@ -99,7 +102,7 @@ Fixpoint scale_row (s : shape) (row : list Z) : idx :=
 (* np.unique((U.dot(diag(shape))).astype(int), axis=0) *)
 Definition cand (s : shape) (draw : list (list Z)) : list idx := unique_rows (map (scale_row s) draw).
 
-(* while len(subs) < nonzeros and cnt < 10: subs = cand(next draw); cnt += 1
+(* while len(subs) < nonzeros and cnt < 10: subs = cand(next draw); pool = vstack(pool, next draw); cnt += 1
    returns the final candidate list and the number of draws demanded from the stream *)
 Fixpoint redraw (fuel nz : nat) (s : shape) (cur : list idx) (draws : list (list (list Z))) : list idx * nat :=
   match fuel with
@@ -112,10 +115,24 @@ Fixpoint redraw (fuel nz : nat) (s : shape) (cur : list idx) (draws : list (list
         end
       else (cur, O)
   end.
-Definition sprand_subs (nz : nat) (s : shape) (draws : list (list (list Z))) : list idx :=
-  firstn nz (fst (redraw 10 nz s [] draws)).
 Definition sprand_consumed (nz : nat) (s : shape) (draws : list (list (list Z))) : nat :=
   snd (redraw 10 nz s [] draws).
+(* the candidate the loop ends with, truncated to the request (ALL there was before the repair of finding A-46) *)
+Definition sprand_loop_subs (nz : nat) (s : shape) (draws : list (list (list Z))) : list idx :=
+  firstn nz (fst (redraw 10 nz s [] draws)).
+(* pool: the scaled rows of every consumed draw, stacked in the order drawn *)
+Definition pool_rows (s : shape) (draws : list (list (list Z))) : list idx :=
+  flat_map (fun d => map (scale_row s) d) draws.
+(* the stored subscripts (repair of A-46, /repo bc5da93): the loop is unchanged; only when every consumed draw fell
+   short (if len(subs) < nonzeros:) the result is taken from the distinct rows of ALL consumed draws,
+     _, first = np.unique(pool, axis=0, return_index=True); subs = np.unique(pool[np.sort(first)[:nonzeros], :], axis=0)
+   i.e. in order of first appearance, at most nz of them, stored in ascending order;
+   then nonzeros = min(nonzeros, len(subs)); subs = subs[0:nonzeros] *)
+Definition sprand_subs (nz : nat) (s : shape) (draws : list (list (list Z))) : list idx :=
+  let r := redraw 10 nz s [] draws in
+  if length (fst r) <? nz
+  then unique_rows (firstn nz (dedup_first (pool_rows s (firstn (snd r) draws))))
+  else sprand_loop_subs nz s draws.
 (* sptensor.from_function(f, shape, nonzeros) after the request has been normalised to a count nz:
    vals = f((nnz, 1)) is an input (a list of the right length) *)
 Definition sprand (nz : nat) (s : shape) (draws : list (list (list Z))) (vals : list V) : sparse V :=
@@ -158,19 +175,6 @@ Definition sptenrand_request_spec (total : nat) (p : Z) (q : positive) : option 
 
 End Gen.
 
-(* ---------------------------------------------------------------- PROPOSED repair of finding A-46 *)
-(* fixes/C20-A-46-union-fallback.diff: the redraw loop is unchanged (same draws consumed, same result whenever one single
-   draw has enough distinct rows); only when every draw fell short, the result is taken from the distinct rows of ALL
-   consumed draws, in order of first appearance, at most nz of them, stored in ascending order *)
-Definition dedup_first (l : list idx) : list idx := rev (dedup (rev l)).
-Definition pool_rows (s : shape) (draws : list (list (list Z))) : list idx :=
-  flat_map (fun d => map (scale_row s) d) draws.
-Definition sprand_subs_union (nz : nat) (s : shape) (draws : list (list (list Z))) : list idx :=
-  let r := redraw 10 nz s [] draws in
-  if length (fst r) <? nz
-  then unique_rows (firstn nz (dedup_first (pool_rows s (firstn (snd r) draws))))
-  else firstn nz (fst r).
-
 (* ---------------------------------------------------------------- teneye (entry formula, exact arithmetic on counts) *)
 Fixpoint insert_all (x : nat) (l : list nat) : list (list nat) :=
   match l with
@@ -188,3 +192,16 @@ Definition pairs_match (p : list nat) : bool :=
   forallb (fun j => Nat.eqb (nth ((2 * j + m - 1) mod m) p 0) (nth (2 * j) p 0)) (seq 0 (m / 2)).
 (* numerator of A[i]: the number of the m! rearrangements of i whose consecutive pairs are equal; A[i] = count / m! *)
 Definition teneye_count (i : idx) : nat := length (filter pairs_match (perms i)).
+
+(* closed form of that numerator (the general entry formula; proved for subscripts with a value of odd multiplicity, for
+   constant subscripts and for orders 2 and 4 - Proofs/C20TeneyeEntry.v; compared with teneye_count on every generated
+   teneye case): with c_v the number of positions of i that hold the value v,
+     teneye_count i = 0                                         if some c_v is odd,
+     teneye_count i = 2^(m/2) * (m/2)! * prod_v (c_v - 1)!!     otherwise
+   (2^(m/2) (m/2)! orderings of a perfect matching of the positions into equal-valued pairs, prod_v (c_v - 1)!! matchings) *)
+Fixpoint oddfact (c : nat) : nat := match c with S (S c') => S c' * oddfact c' | _ => 1 end.
+Definition teneye_formula (i : idx) : nat :=
+  let vs := nodup Nat.eq_dec i in
+  if forallb (fun v => Nat.even (count_occ Nat.eq_dec i v)) vs
+  then 2 ^ (length i / 2) * fact (length i / 2) * fold_right Nat.mul 1 (map (fun v => oddfact (count_occ Nat.eq_dec i v)) vs)
+  else 0.
